@@ -32,10 +32,11 @@ type TaskRec struct {
 }
 
 type Record struct {
-	Tasks    []TaskRec `json:"tasks"`
-	Sched    []int     `json:"sched"`
-	MapDflt  int       `json:"map_default"`
-	PoolDflt int       `json:"pool_default"`
+	Tasks     []TaskRec `json:"tasks"`
+	Sched     []int     `json:"sched"`
+	MapDflt   int       `json:"map_default"`
+	PoolDflt  int       `json:"pool_default"`
+	ConcFirst bool      `json:"conc_first,omitempty"` // the concurrent run comes before the sequential baseline (so that first-use writes happen while packages build concurrently)
 }
 
 var env *run.Env
@@ -44,6 +45,13 @@ var env *run.Env
 var sharedAtStart string
 
 func sharedInvariant() (string, string) {
+	if singletonsAtStart != nil {
+		for _, e := range fprint.Diff(singletonsAtStart, fprint.Snapshot()) {
+			if fprint.Singleton(e.Kind) && e.Name != "printerPool" && e.Pkg != "go/types" {
+				return "shared-singleton-mutated:" + e.Pkg + "." + e.Name, "a package-level node or object of gogen differs from what it was before the first build of this process: " + e.Pkg + "." + e.Name
+			}
+		}
+	}
 	if now := run.SharedScopes(); now != sharedAtStart {
 		return "go-types-shared-scope-mutated", "a build changed go/types' process-wide Universe or Unsafe scope: " + diffNames(sharedAtStart, now)
 	}
@@ -64,8 +72,14 @@ func diffNames(a, b string) string {
 	return "new names " + strings.Join(extra, ",")
 }
 
+// fingerprint of every package-level node/object of gogen before the first build of the process
+var singletonsAtStart []fprint.Entry
+
 func TestMain(m *testing.M) {
 	sharedAtStart = run.SharedScopes()
+	if !raceBuild {
+		singletonsAtStart = fprint.Snapshot()
+	}
 	var err error
 	env, err = run.NewEnv(true)
 	if err != nil {
@@ -107,6 +121,7 @@ func gen(rt *rapid.T) any {
 	}
 	r.MapDflt = rapid.IntRange(0, 5).Draw(rt, "mapdflt")
 	r.PoolDflt = rapid.IntRange(-1, 1).Draw(rt, "pooldflt")
+	r.ConcFirst = rapid.IntRange(0, 2).Draw(rt, "conc_first") == 0
 	return r
 }
 
@@ -174,9 +189,18 @@ func exec1(rec any) *core.Outcome {
 	if len(r.Tasks) > maxTasks {
 		r.Tasks = r.Tasks[:maxTasks]
 	}
-	// sequential baseline: every task alone, before the concurrent run
+	// sequential baseline: every task alone, before the concurrent run (or, for ConcFirst
+	// records, after it: the loop below then only checks that the programs are valid)
 	var before []*run.Result
 	for i := range r.Tasks {
+		if r.ConcFirst {
+			if b := env.Probe(r.Tasks[i].Prog); b != nil {
+				out.Observe("invalid_program_discarded")
+				out.HistHash, out.ObsHash = "invalid", "invalid"
+				return out
+			}
+			continue
+		}
 		b := solo(&r.Tasks[i])
 		if b.LoadErr != nil {
 			out.Observe("invalid_program_discarded")
@@ -189,6 +213,11 @@ func exec1(rec any) *core.Outcome {
 	if !raceBuild {
 		base = fprint.Snapshot()
 	}
+	defer func() {
+		if r.ConcFirst {
+			out.Probe("concurrent_run_before_baseline")
+		}
+	}()
 	saltCounter++
 	shared := saltCounter // the concurrent builds share their synthetic import paths
 	c := &concRun{s: baton.New(), n: len(r.Tasks)}
@@ -273,6 +302,11 @@ func exec1(rec any) *core.Outcome {
 	out.ProbeN("task_switches", switches)
 	if c.s.Capped {
 		out.Inconclusive = "step_cap"
+	}
+	if r.ConcFirst {
+		for i := range r.Tasks {
+			before = append(before, solo(&r.Tasks[i]))
+		}
 	}
 	// oracle 2: sequential equivalence, per package
 	var oh []string
